@@ -12,6 +12,7 @@ CONSTANTS
     SnapshotOnPush = TRUE
     WithLazy = TRUE
     WithCurrent = TRUE
+    CtxForms <- MC_Forms
     Panics = TRUE
     Emit = TRUE
 VIEW tview
